@@ -155,3 +155,13 @@ claim('C02', 'model_checking',
       'is a conformance case; compressed payloads are additionally recompressed at zlib levels 1/6/9.',
       "trusts TLC, the transcription of binutils' macro (clause groups the property names), Python zlib for the recompression variants",
       'DESIGN.md 5/C02')
+claim('C18', 'translation_validation',
+      'differential against GNU readelf 2.40 under a vendored copy of the project\'s tolerance rules; population = the readelf regression corpus x 18 '
+      'options plus the description sweep generated by the TLA+ specification (spec/Envelope.tla over Elf.tla and the vendored registry: one image '
+      'per entry of every ELF-level description table of the clone, inside the Supported envelope checked by TLC)',
+      'Every (file, option) pair runs both tools and compares their text. The specification does not model GNU readelf\'s formatting (that would be a '
+      'second readelf); it generates the sweep images (e_machine, EI_OSABI, e_type, class/byte order, sh_type per overlay, sh_flags, p_type, p_flags, '
+      'symbol type/binding/visibility/section index, dynamic tags, DT_FLAGS/DT_FLAGS_1 bits) and defines the envelope. ~800 corpus pairs + ~760 sweep pairs.',
+      'GNU binutils readelf 2.40 is the oracle (the project targets >= 2.41: seven corpus pairs that differ only for that reason are excluded with the '
+      'reason); DWARF-level description tables, notes, relocation-type names and version flags are not swept yet; known text deviations are listed in '
+      'KNOWN_FINDINGS.json by table entry', 'DESIGN.md 5/C18', engine='tlc')
